@@ -79,4 +79,55 @@ def legacyComponent {F} [NumC F] : Pen F → F
 /-- `constrained_evaluator::operator()` / `fast()` around any base fitness -/
 def constrainedEvalP {F} [NumC F] (p : Pen F) (base : List F) : List F := [penaltyComponent p] ++ base
 
+/-! ### an evaluator OBJECT that outlives changes of its dataframe
+
+  The shipped evaluators hold a POINTER to a mutable `dataframe` (DSS, holdout validation and
+  `read_csv` on an existing frame change it under them) plus parameters fixed at construction
+  (`x_slot`, the error functor, the penalty function).  In the model an evaluator object is its
+  parameters only – `call : D → R × D` is a closure over them and takes the data AT CALL TIME
+  (rows, number of classes of the class table, counters) – nothing is read at construction. -/
+
+/-- what can happen between construction and destruction of an evaluator object -/
+inductive HistOp (D : Type) where
+  /-- the dataframe changes: rows appended / erased / reloaded, classes added to the class table, … -/
+  | mutate (f : D → D)
+  /-- `operator()` / `fast()` is called -/
+  | call
+
+/-- a history on one evaluator object: the results of its calls, in order, and the final data
+    (a call also updates the difficulty counters: it returns the data afterwards) -/
+def runHist {D R : Type} (call : D → R × D) : D → List (HistOp D) → List R × D
+  | d, [] => ([], d)
+  | d, .mutate f :: ops => runHist call (f d) ops
+  | d, .call :: ops =>
+    let r := call d
+    let rest := runHist call r.2 ops
+    (r.1 :: rest.1, rest.2)
+
+/-- number of calls in a history -/
+def nCalls {D : Type} : List (HistOp D) → Nat
+  | [] => 0
+  | .mutate _ :: ops => nCalls ops
+  | .call :: ops => nCalls ops + 1
+
+/-- a classification dataframe as an evaluator sees it at call time -/
+structure ClsFrame (F : Type) where
+  /-- `dat_->classes()` : size of the class table (may exceed the number of labels present in the rows) -/
+  classes : Nat
+  rows : List (Cls.TEx F)
+
+/-- write the counters of an evaluation back into the rows -/
+def ClsFrame.withCounters {F} (fr : ClsFrame F) (after : List (CEx F)) : ClsFrame F :=
+  { fr with rows := (fr.rows.zip after).map (fun p => { p.1 with difficulty := p.2.difficulty }) }
+
+/-- the shipped evaluators as closures over their construction parameters -/
+def soeCall {F} [Num F] (k : ErrKind) (step : Nat) : List (Ex F) → List F × List (Ex F) :=
+  fun d => sumOfErrors (errF k) step d
+def dynCall {F} [NumC F] (xslot members : Nat) : ClsFrame F → List F × ClsFrame F :=
+  fun fr => let r := Cls.dynSlotEvaluator fr.classes xslot members fr.rows; (r.1, fr.withCounters r.2)
+def gaussCall {F} [NumC F] (members : Nat) : ClsFrame F → List F × ClsFrame F :=
+  fun fr => let r := Cls.gaussianEvaluator fr.classes members fr.rows; (r.1, fr.withCounters r.2)
+def binCall {F} [NumC F] (members : Nat) : ClsFrame F → List F × ClsFrame F :=
+  fun fr => let r := Cls.binaryEvaluator members fr.rows; (r.1, fr.withCounters r.2)
+
 end Vita.C05
